@@ -266,10 +266,13 @@ package datastore
 // commit: a node already committed is refused; a successful commit has written the repo (with the
 // locked flag) to the metadata store (C03: the flag survives a restart). The test of node.locked and
 // its setting lie in one critical section of the node's mutex (C11: one of several concurrent commits wins).
+// The commit's log lines are added in memory after the flag is set, so that the single save at the end
+// writes flag, note and log together (C04: a crash leaves the commit entirely present or entirely absent;
+// C02: the flag that is persisted is the one that refuses later writes).
 //@ func repoManager.commit
 //@   lockset
 //@   lockbalance
-//@   prop C07 C03 C11
+//@   prop C07 C03 C11 C02 C04
 //@   safety_off
 //@   calls_havoc
 //@   requires m != nil
@@ -283,6 +286,7 @@ package datastore
 //@   ghost testEpoch int = 0
 //@   ghostset at "if node.locked {": testEpoch = lockepoch("node.RWMutex")
 //@   assert at "node.locked = true": heldw("node.RWMutex") && lockepoch("node.RWMutex") == testEpoch
+//@   assert at "if err := node.addToLog(log); err != nil {": setLocked
 //@   ensures result == nil ==> saved && !wasLocked && setLocked
 
 // ---- copying a data instance (C19): the two receiving goroutines of copyData ----
@@ -652,3 +656,29 @@ package datastore
 //@   prop C11
 //@   structural
 
+
+// copyVersions, receiving goroutine (C19: a version-limited migration stores, for every datum, its value at
+// each transmitted version): the "same value as the previous version" shortcut compares only against values
+// of the SAME datum - when the stored versions of a datum are flushed, the comparison starts afresh
+// (lastKV is nil on entry to the flush loop), so a datum whose value happens to equal the last value stored
+// for the previous datum is not dropped.
+//@ func copyVersions$1
+//@   prop C19
+//@   safety_off
+//@   calls_havoc
+//@   modifies *
+//@   invariant loop 3: rangeindex == -1 ==> lastKV == nil
+
+// CopyInstance (C19, C03: the copy's settings survive a restart): properties copied from the source into
+// the new instance are persisted (the repo metadata is saved AFTER CopyPropertiesFrom; the save done by
+// newData happened before the properties were copied).
+//@ func CopyInstance
+//@   prop C19 C03
+//@   safety_off
+//@   calls_havoc
+//@   modifies *
+//@   ghost copied bool = false
+//@   ghost savedAfterCopy bool = false
+//@   ghostset at "if err := copier.CopyPropertiesFrom(d1, fs); err != nil {": copied = true
+//@   ghostset at "if err := SaveDataByUUID(uuid, d2); err != nil {": savedAfterCopy = copied
+//@   assert at "oldKV, err := GetOrderedKeyValueDB(d1)": copied ==> savedAfterCopy
